@@ -1,7 +1,7 @@
 (** C10 — every guarded operation preserves the invariant and answers like
     the abstract map; the main refinement theorem. *)
 From Coq Require Import List NArith ZArith Bool Lia.
-From C33 Require Import Lib.Bytes Lib.OMap C10.Model C10.Spec C10.ProofsKeys C10.ProofsInv C10.ProofsSave.
+From C33 Require Import Lib.Bytes Lib.OMap C10.Model C10.Spec C10.ProofsKeys C10.ProofsInv C10.ProofsSave C10.ProofsQuery.
 Import ListNotations.
 
 Lemma inv_init : inv init [] [].
@@ -312,4 +312,22 @@ Theorem every_save_partial ops1 ops2 :
   errs_agree ops1 /\ saved_agrees ops1.
 Proof.
   intro G. apply table_refines_map_partial. unfold safe_words in *. eapply safe_from_app; eauto.
+Qed.
+
+(** full listings after the save of a guarded history return exactly the
+    matching rows of the abstract map *)
+Theorem queries_partial ops q :
+  safe_words ops = true ->
+  (forall p d, get p (snd (s_run [] ops)) = Some d -> p <> []) ->
+  (match q_idx q with QPrimary => True | QIdx _ => sepfree (q_prefix q) = true end) ->
+  q_start q = [] -> (q_count q <= 0)%Z ->
+  exists rs,
+    list_index (kv (snd (run init (ops ++ [OSave])))) q =
+      ((match rs with [] => ENotFound | _ => EOk end), rs) /\
+    forall p d, In (p, d) rs <-> (get p (snd (s_run [] ops)) = Some d /\ q_match q p d = true).
+Proof.
+  intros G NE SP ST C.
+  destruct (table_refines_map_partial ops G) as [_ K]. unfold saved_agrees in K. rewrite K.
+  destruct (run_refines ops init [] [] inv_init G) as [_ [m0' I]].
+  apply list_index_full; auto; apply I.
 Qed.
